@@ -1,3 +1,4 @@
+import SSModel.Bisect
 /-!
 # M-A: the exception table of a code object (C01, C02)
 
@@ -8,7 +9,8 @@
 * `encVarint`, `encodeTable`: CPython's assembler (`assemble_emit_exception_table_item`), generalised to any size.
 * `walk`: the loop at the end of `inspect_frame` that simulates raising from the position of the previous
   handler.  `bisect.bisect_left(handlers, (current + 1, 0))` is modelled by its contract on a list sorted by
-  `start` (the partition point); sortedness of every real table met is checked by the harness.
+  `start`: modelled as the standard library's binary search (`SS.Bisect.bs`), proved equal to the partition point on
+  sorted disjoint tables; sortedness of every real table met is checked by the harness.
 * `lookup`, `chain`: what the interpreter does (`get_exception_handler`: linear scan, first entry covering the
   offset, stop at the first entry that starts after it), iterated from each handler's target.
 * `firstCover`: the `handler_depth` loop at the top of `inspect_frame` (where the value stack of a *running*
@@ -103,7 +105,16 @@ structure Block where
 /-- `handlers[i] < (c + 1, 0)` as tuples. -/
 def ltKey (v : View) (c : Nat) : Bool := v.start < c + 1 || (v.start == c + 1 && v.end_ < 0)
 
-/-- `bisect.bisect_left(handlers, (c + 1, 0))` on a sorted list: the partition point. -/
+/-- `handlers[i] < (c + 1, 0)` by index (false past the end: the search never looks there). -/
+def ltAt (hs : List View) (c : Nat) (i : Nat) : Bool :=
+  match hs[i]? with
+  | some v => ltKey v c
+  | none => false
+
+/-- `bisect.bisect_left(handlers, (c + 1, 0))`: the standard library's binary search. -/
+def bisectLeftBS (hs : List View) (c : Nat) : Nat := SS.Bisect.bs (ltAt hs c) (hs.length + 1) 0 hs.length
+
+/-- Its specification on a sorted list: the partition point (proved equal on disjoint tables, `bisectLeftBS_eq`). -/
 def bisectLeft (hs : List View) (c : Nat) : Nat := (hs.takeWhile (ltKey · c)).length
 
 def covers (v : View) (pos : Nat) : Bool := v.start ≤ pos && (pos : Int) ≤ v.end_
@@ -113,7 +124,7 @@ prepending, which is the `blocks.reverse()` at the end. -/
 def walkGo (hs : List View) : Nat → Nat → List Block → Option (List Block)
   | 0, _, _ => none
   | f + 1, cur, acc =>
-    let idx := bisectLeft hs cur
+    let idx := bisectLeftBS hs cur
     if idx = 0 then some acc else
     match hs[idx - 1]? with
     | none => some acc
